@@ -5,7 +5,7 @@
   "C07"
  ],
  "level": "U/iter",
- "tier": "wip",
+ "tier": "quick",
  "harness": "h_new_inode_ipg8",
  "replace": [
   "check_inode_uninit"
@@ -33,7 +33,7 @@
   "C07"
  ],
  "level": "U/iter",
- "tier": "wip",
+ "tier": "quick",
  "harness": "h_new_inode_ipg16",
  "replace": [
   "check_inode_uninit"
@@ -57,7 +57,7 @@
   "C07"
  ],
  "level": "U/iter",
- "tier": "wip",
+ "tier": "quick",
  "harness": "h_new_inode_ipg24",
  "replace": [
   "check_inode_uninit"
@@ -81,7 +81,7 @@
   "C07"
  ],
  "level": "U/iter",
- "tier": "wip",
+ "tier": "thorough",
  "harness": "h_new_inode_ipg4104",
  "replace": [
   "check_inode_uninit"
@@ -105,7 +105,7 @@
   "C07"
  ],
  "level": "U/iter",
- "tier": "wip",
+ "tier": "quick",
  "harness": "h_new_inode_ipg8192",
  "replace": [
   "check_inode_uninit"
@@ -129,7 +129,7 @@
   "C07"
  ],
  "level": "U/iter",
- "tier": "wip",
+ "tier": "quick",
  "harness": "h_new_inode_ipg32768",
  "replace": [
   "check_inode_uninit"
@@ -153,7 +153,7 @@
   "C07"
  ],
  "level": "U/iter",
- "tier": "wip",
+ "tier": "quick",
  "harness": "h_new_inode_ipg524288",
  "replace": [
   "check_inode_uninit"
